@@ -7,6 +7,9 @@
    events (datagrams with arbitrary bytes, sources, flags, receive stamps, in
    any order and number, and read errors), every AEAD [open] (symbolic
    crypto), every history of calls of one client.
+   For the SCION client the front of a datagram is what gopacket/scionproto
+   show of it, including whether the packet authenticator (SPAO) the client
+   looks at verifies under the DRKey host-host key (C05_spao_* below).
    [genuine open q g h] is the conjunction of the property's clauses for
    datagram g with decoded header h (Proofs/ClientAcceptProofs.v, spelled out
    by C05_genuine_clauses below). *)
@@ -290,6 +293,124 @@ Proof.
 Qed.
 Print Assumptions C05_scion_allfail_pinned_refuted.
 
+(* ------------------------------------------------------------------ *)
+(* The SCION client with packet authentication (Auth.Enabled: SPAO     *)
+(* under the DRKey host-host key) and NTS over SCION.                  *)
+(* [spao_bad q g]: the client holds the key and g carries, in an       *)
+(* end-to-end extension, an authenticator for the server's SPI and     *)
+(* algorithm whose MAC does not verify (or cannot be computed).        *)
+(* [bad_mac q g]: in addition everything the client checks before the  *)
+(* authenticator (flags, parse, UDP length, source and destination     *)
+(* ISD-AS and host) is in order.                                       *)
+(* ------------------------------------------------------------------ *)
+
+(* wrong MAC => never an offset, whatever else the datagram says and wherever it arrives in the loop *)
+Theorem C05_spao_bad_mac_never_offset : forall open q g,
+  spao_bad q g -> forall nr r, handle open q nr (EvDgram g) <> SAccept r.
+Proof. exact spao_bad_not_accepted. Qed.
+Print Assumptions C05_spao_bad_mac_never_offset.
+
+(* wrong MAC on a datagram that is otherwise from the server => errInvalidPacketAuthenticator
+   under the one-retry rule (skipped if no datagram was skipped before, a deadline is set and
+   not reached; otherwise the call ends with that error) *)
+Theorem C05_spao_bad_mac_error : forall open q nr g v,
+  flags_ok q g = true -> g_front g = FrontSCION v -> scion_pre_ok q v ->
+  sv_e2e v = true -> q_authkey q = true -> sv_auth v = AuthMac false ->
+  handle open q nr (EvDgram g) = retry q nr (g_before g) EScionAuth.
+Proof. exact spao_bad_error. Qed.
+Print Assumptions C05_spao_bad_mac_error.
+
+(* two wrong MACs in one measurement: retry exhausted => the authenticator error, never an
+   offset, although the genuine response may follow *)
+Theorem C05_spao_two_bad_macs : forall open q g1 g2 rest,
+  bad_mac q g1 -> bad_mac q g2 ->
+  recv_loop open q 0 0 (EvDgram g1 :: EvDgram g2 :: rest) =
+  if q_deadline q && g_before g1 then LFail 1 EScionAuth else LFail 0 EScionAuth.
+Proof. exact spao_two_bad. Qed.
+Print Assumptions C05_spao_two_bad_macs.
+
+(* wrong MAC, then the genuine response: the first is skipped, the second accepted *)
+Theorem C05_spao_bad_then_genuine : forall open q g1 g2 h rest,
+  bad_mac q g1 -> q_deadline q = true -> g_before g1 = true ->
+  genuine open q g2 h -> clock_sane q g2 h ->
+  recv_loop open q 0 0 (EvDgram g1 :: EvDgram g2 :: rest) = LAccept 1 (result_of q g2 h).
+Proof. exact spao_bad_then_genuine. Qed.
+Print Assumptions C05_spao_bad_then_genuine.
+
+(* what the code does with a response that carries no authenticator the client looks at
+   (no end-to-end extension, no authenticator option, option of another length, the client's
+   own SPI, another SPI or algorithm) or one whose MAC verifies: exactly what a client without
+   key does - the missing authenticator is not an error, the response is used unauthenticated *)
+Theorem C05_spao_absent_is_unauthenticated : forall open q nr g,
+  (forall v, g_front g = FrontSCION v -> sv_e2e v = true -> sv_auth v <> AuthMac false) ->
+  handle open q nr (EvDgram g) = handle open (without_authkey q) nr (EvDgram g).
+Proof. exact spao_absent_as_without_key. Qed.
+Print Assumptions C05_spao_absent_is_unauthenticated.
+
+(* an accepted datagram of the SCION client: from the queried ISD-AS and host, addressed to the
+   client, its authenticator (if the client holds the key and looks at one) verifies, and with
+   NTS over SCION it carries the request's identifier and verifies under the S2C key *)
+Theorem C05_scion_accept_clauses : forall open q evs i r g v,
+  recv_loop open q 0 0 evs = LAccept i r -> nth_error evs i = Some (EvDgram g) -> g_front g = FrontSCION v ->
+  scion_pre_ok q v /\
+  (sv_e2e v = true -> q_authkey q = true -> sv_auth v <> AuthMac false) /\
+  (q_nts q = true -> nts_ok open q (g_payload g)).
+Proof. exact scion_accept_clauses. Qed.
+Print Assumptions C05_scion_accept_clauses.
+
+(* the hypotheses are satisfiable: a SCION client with the key, server 127.0.0.1 in ISD-AS 1, client in 2 *)
+Definition ex_sq : request :=
+  {| q_scion := true; q_server := 2130706433; q_server_ia := 1; q_local_ia := 2; q_local := 2130706433;
+     q_authkey := true; q_bufcap := Z.to_nat 9188; q_deadline := true;
+     q_nts := false; q_uid := []; q_s2c := [];
+     q_ireq := false; q_rx := ex_t 0 0; q_tx := ex_t 3908988800 5;
+     q_ref := 1700000000000000000; q_ctx1 := 1700000000000001000;
+     q_pctx := ex_t 0 0; q_psrx := ex_t 0 0; q_pcrx := ex_t 0 0 |}.
+Definition ex_sv (e2e : bool) (a : auth_view) : scion_view :=
+  {| sv_decode_ok := true; sv_nlayers := if e2e then 3 else 2; sv_last := 0; sv_len_ok := true;
+     sv_src_ia := 1; sv_dst_ia := 2; sv_src_host := Some 2130706433; sv_dst_host := Some 2130706433;
+     sv_e2e := e2e; sv_tsopt := None; sv_auth := a |}.
+Definition ex_sg (e2e : bool) (a : auth_view) : dgram :=
+  {| g_before := true; g_xflags := 0; g_front := FrontSCION (ex_sv e2e a); g_payload := ex_good; g_crx := 1700000000000900000 |}.
+
+Example C05_ex_bad_mac : bad_mac ex_sq (ex_sg true (AuthMac false)).
+Proof.
+  split; [vm_compute; reflexivity|]. exists (ex_sv true (AuthMac false)).
+  split; [reflexivity|]. split; [|auto]. unfold scion_pre_ok. simpl. repeat split; auto. discriminate.
+Qed.
+
+(* wrong MAC, wrong MAC, genuine: the authenticator error at the second datagram *)
+Example C05_ex_spao_two_bad :
+  recv_loop ex_open_none ex_sq 0 0
+    [EvDgram (ex_sg true (AuthMac false)); EvDgram (ex_sg true (AuthMac false)); EvDgram (ex_sg true (AuthMac true))]
+  = LFail 1 EScionAuth.
+Proof. vm_compute. reflexivity. Qed.
+
+(* wrong MAC, genuine: accepted at the second datagram *)
+Example C05_ex_spao_bad_then_genuine :
+  exists r, recv_loop ex_open_none ex_sq 0 0 [EvDgram (ex_sg true (AuthMac false)); EvDgram (ex_sg true (AuthMac true))] = LAccept 1 r.
+Proof. eexists. vm_compute. reflexivity. Qed.
+
+(* the same response without any authenticator is accepted by the client that holds the key *)
+Example C05_ex_spao_missing_accepted :
+  exists r, recv_loop ex_open_none ex_sq 0 0 [EvDgram (ex_sg false AuthNone)] = LAccept 0 r.
+Proof. eexists. vm_compute. reflexivity. Qed.
+
+(* the oracle rejects an offset based on a datagram whose authenticator does not verify *)
+Example C05_ex_oracle_rejects_bad_mac :
+  C05_ok {| oq_nts := false; oq_ireq := false; oq_org := ex_t 0 0; oq_rx := ex_t 0 0; oq_tx := ex_t 3908988800 5;
+            oq_ref := 1700000000000000000 |}
+         [{| o_from_server := true; o_payload := ex_good; o_uid_ok := false; o_auth_ok := false; o_spao_ok := false |}]
+         (ObsOffset 1700000000000001000 1700000000000232830 1700000000000465661 1700000000000900000 (-101254)) = false.
+Proof. vm_compute. reflexivity. Qed.
+(* ... and accepts it when the authenticator is in order *)
+Example C05_ex_oracle_accepts_good_mac :
+  C05_ok {| oq_nts := false; oq_ireq := false; oq_org := ex_t 0 0; oq_rx := ex_t 0 0; oq_tx := ex_t 3908988800 5;
+            oq_ref := 1700000000000000000 |}
+         [{| o_from_server := true; o_payload := ex_good; o_uid_ok := false; o_auth_ok := false; o_spao_ok := true |}]
+         (ObsOffset 1700000000000001000 1700000000000232830 1700000000000465661 1700000000000900000 (-101254)) = true.
+Proof. vm_compute. reflexivity. Qed.
+
 (* the ideal-AEAD hypothesis of C05_nts_authentic has an instance *)
 Example C05_ex_ideal : exists (sealed : bytes -> bytes -> bytes -> bytes -> bytes -> Prop),
   forall k n ad ct pt, ex_open k n ad ct = Some pt -> sealed k n ad pt ct.
@@ -299,6 +420,6 @@ Proof. exists (fun k n ad pt ct => ex_open k n ad ct = Some pt). auto. Qed.
 Example C05_ex_oracle_rejects :
   C05_ok {| oq_nts := false; oq_ireq := false; oq_org := ex_t 0 0; oq_rx := ex_t 0 0; oq_tx := ex_t 3908988800 5;
             oq_ref := 1700000000000000000 |}
-         [{| o_from_server := false; o_payload := ex_good; o_uid_ok := false; o_auth_ok := false |}]
+         [{| o_from_server := false; o_payload := ex_good; o_uid_ok := false; o_auth_ok := false; o_spao_ok := true |}]
          (ObsOffset 1700000000000001000 1700000000000232830 1700000000000465661 1700000000000900000 (-101254)) = false.
 Proof. vm_compute. reflexivity. Qed.
